@@ -26,7 +26,8 @@ inductive Shape where
   | str
   | num
   | bool
-  | hole
+  | hole                     -- interface{}: any JSON
+  | hmap                     -- map[string]interface{}: a JSON object or null, anything else is an error
   | struct (fs : Fields)
   | slice (e : Shape)
   | map (e : Shape)
@@ -55,6 +56,7 @@ def Shape.beq : Shape → Shape → Bool
   | .num, .num => true
   | .bool, .bool => true
   | .hole, .hole => true
+  | .hmap, .hmap => true
   | .struct a, .struct b => Fields.beq a b
   | .slice a, .slice b => Shape.beq a b
   | .map a, .map b => Shape.beq a b
@@ -102,6 +104,7 @@ def zero : Shape → CVal
   | .num => .num "0"
   | .bool => .bool false
   | .hole => .hole .null
+  | .hmap => .hole .null
   | .struct fs => .struct (zeroF fs)
   | .slice _ => .slice true []
   | .map _ => .map true []
@@ -157,12 +160,18 @@ def normM (f : CVal → CVal) : List (String × CVal) → List (String × CVal)
   | [] => []
   | (k, v) :: r => (k, f v) :: normM f r
 
+def isObjOrNull : Json → Bool
+  | .null => true
+  | .obj _ => true
+  | _ => false
+
 mutual
 def wt : Shape → CVal → Bool
   | .str, .str _ => true
   | .num, .num _ => true
   | .bool, .bool _ => true
   | .hole, .hole _ => true
+  | .hmap, .hole j => isObjOrNull j
   | .struct fs, .struct vs => wtF fs vs
   | .slice e, .slice n vs => (!n || vs.isEmpty) && wtL (wt e) vs
   | .map e, .map n kvs => (!n || kvs.isEmpty) && wtM (wt e) kvs
@@ -181,6 +190,7 @@ def encode : Shape → CVal → Json
   | .num, .num l => .num l
   | .bool, .bool b => .bool b
   | .hole, .hole j => j
+  | .hmap, .hole j => j
   | .struct fs, .struct vs => .obj (encodeF fs vs)
   | .slice e, .slice n vs => if n then .null else .arr (encodeL (encode e) vs)
   | .map e, .map n kvs => if n then .null else .obj (encodeM (encode e) kvs)
@@ -201,6 +211,7 @@ def decode : Shape → Json → Option CVal
   | .bool, .bool b => some (.bool b)
   | .bool, .null => some (.bool false)
   | .hole, j => some (.hole j)
+  | .hmap, j => if isObjOrNull j then some (.hole j) else none
   | .struct fs, .obj ms => (decodeF fs ms).map .struct
   | .struct fs, .null => some (.struct (zeroF fs))
   | .slice e, .arr xs => (decodeL (decode e) xs).map (.slice false)
@@ -261,7 +272,7 @@ def expandTy (g : Graph) : Nat → GoTy → Option Shape
   | _ + 1, .str => some .str
   | _ + 1, .num => some .num
   | _ + 1, .bool => some .bool
-  | _ + 1, .hole k => if k == "json.RawMessage" then none else some .hole
+  | _ + 1, .hole k => if k == "json.RawMessage" then none else if k == "map[string]interface{}" then some .hmap else some .hole
   | _ + 1, .ext _ => none
   | n + 1, .named s =>
     match g.find s with
@@ -289,7 +300,7 @@ def looseTy (g : Graph) : Nat → GoTy → Option Shape
   | _ + 1, .str => some .str
   | _ + 1, .num => some .num
   | _ + 1, .bool => some .bool
-  | _ + 1, .hole _ => some .hole
+  | _ + 1, .hole k => if k == "map[string]interface{}" then some .hmap else some .hole
   | _ + 1, .ext _ => some .hole
   | n + 1, .named s =>
     match g.find s with
@@ -353,7 +364,7 @@ def fcM (tls filter : Shape) (x : FilterChainV) : Json :=
 /-- `HostConfig`; `metadata` is `*MetadataConfig{filter_metadata: LbMeta{"mosn.lb": map[string]interface{}}}` -/
 def hostShape : Shape :=
   .struct (.cons "address" true .str (.cons "hostname" true .str (.cons "weight" true .num
-    (.cons "metadata" true (.ptr (.struct (.cons "filter_metadata" false (.struct (.cons "mosn.lb" false .hole .nil)) .nil)))
+    (.cons "metadata" true (.ptr (.struct (.cons "filter_metadata" false (.struct (.cons "mosn.lb" false .hmap .nil)) .nil)))
     (.cons "tls_disable" true .bool .nil)))))
 
 /-- a Go map built from JSON members: the last member with a key wins -/
